@@ -70,7 +70,8 @@ class CacheModel:
                     and any(isinstance(t, ast.Subscript) and self_attr(t.value, self.map) for t in s.targets)]
             sets = [s for s in A.all_stmts(m.node) if isinstance(s, ast.Assign)
                     and any(isinstance(t, ast.Subscript) and self_attr(t.value, self.map) for t in s.targets)]
-            if dels:
+            pops = [c for c in A.body_calls(m.node) if A.call_attr(c) in ("pop", "popitem") and self_attr(A.call_recv(c), self.map)]
+            if dels or pops:
                 self.evict.append(m)
             if sets:
                 self.insert.append(m)
@@ -80,6 +81,17 @@ class CacheModel:
                 app = [c for c in calls if A.call_attr(c) in ("append", "appendleft") and self_attr(A.call_recv(c), self.queue)]
                 if rem and app and len(m.params) == 2:
                     self.mark_used.append(m)
+        self.extra_deleters = []
+        if len(self.evict) > 1:
+            # the helper is the private one-key method the others call; further deletion sites
+            # are reported by the accounting rule, not here
+            def n_callers(m):
+                return sum(1 for o in self.cls.methods.values() for c in A.body_calls(o.node) if self.is_self_call(c, m))
+            cands = [m for m in self.evict if m.name.startswith("_") and len(m.params) == 2]
+            cands.sort(key=lambda m: -n_callers(m))
+            if cands:
+                self.extra_deleters = [m for m in self.evict if m is not cands[0]]
+                self.evict = [cands[0]]
         if len(self.evict) != 1:
             raise AnalysisError("MemoryCache: expected exactly one method deleting from the resident map, found %s" % [m.qual for m in self.evict])
         if len(self.insert) != 1:
